@@ -88,7 +88,11 @@ KNOWN_PURE = {"round", "abs", "len", "max", "min", "int", "float", "sum", "str",
 def opaque(t):
     """The term contains the result of a call that was not resolved (unknown function value, helper that was not inlined,
     method of another object): a mismatch with the specification proves nothing."""
-    return mentions(t, lambda x: x[0] in ("apply", "mcall") or (x[0] == "call" and x[1] not in KNOWN_PURE))
+    return mentions(t, lambda x: x[0] in ("apply", "mcall") or (x[0] == "call" and x[1] not in KNOWN_PURE)
+                    # a table handed in by the caller and not resolved (`rounded[k]`), a list value in the middle of a key, an unknown
+                    # call context: the term is not the method's own arithmetic
+                    or (x[0] == "idx" and x[1][0] in ("v", "ite", "compr", "res"))
+                    or (x[0] == "v" and isinstance(x[1], str) and x[1].startswith("__ctx_")))
 
 
 def check_fold(chk, rule, where, kf, what, *, kind, term=None, sense=None, init_ok=None, source=SELF_NEXT,
@@ -126,6 +130,11 @@ def check_fold(chk, rule, where, kf, what, *, kind, term=None, sense=None, init_
         if sense and ext.sense != sense:
             probs.append("takes the %s where the %s is required" % (ext.sense, sense))
         t = ext.term if kind in ("ARGSET", "ARG") else kf.term
+        if term is not None and t != term and isinstance(t, tuple):
+            from ..symx import deep_simp, path_simp
+            t2 = path_simp(deep_simp(t))
+            if t2 == term:
+                t = t2                # the same key once conditionals that agree on both branches are folded away
         if term is not None and t != term and opaque(t):
             chk.undecided(rule, where, "%s: the folded term `%s` goes through a call that is not resolved statically; equivalence with `%s` not established" % (what, show(t), show(term)))
             return False
